@@ -391,7 +391,13 @@ func (m *model) applyTx(users []*chain.Account, signerIdx int, tx txSpec, newDen
 			} else if m.knownToBank(d) {
 				fs = append(fs, finding{"create:existing-denom-recreated", fmt.Sprintf("%s: created %q although the bank already knows this denom", who, d)})
 			}
-			m.tokens[d] = &token{Admin: act.Bech, Minted: new(big.Int), Burned: new(big.Int), CreatorIdx: actIdx, Sub: ms.Sub}
+			// the first admin is the creator, as the string the message names it with (a delegated
+			// message may spell the granter in upper case; it designates the same account)
+			admin := act.Bech
+			if sameAccount(ms.Creator, act.Addr) {
+				admin = ms.Creator
+			}
+			m.tokens[d] = &token{Admin: admin, Minted: new(big.Int), Burned: new(big.Int), CreatorIdx: actIdx, Sub: ms.Sub}
 			created = append(created, d)
 		case "mint", "burn":
 			amt := ms.amount()
